@@ -80,6 +80,16 @@ def _buf_bcast_cols(A, x):
     return b * b
 
 
+def _buf_consts(A, x):
+    # plain python / numpy constants stored next to computed entries
+    b = A.zeros(4, dtype=x)
+    b[0] = 1.5
+    b[1] = x[0] * x[1]
+    b[2] = 2
+    b[3] = x[2]
+    return b * b[::-1] + b
+
+
 def _paused(A, x):
     # recording is suspended with trace_off() and resumed with trace_on(): what ran while
     # recording was on is on the tape, what ran in between is not
@@ -149,6 +159,9 @@ def catalogue():
     add('x**2.5', lambda A, x: x ** 2.5, dom='pos', group='pow')
     add('x**-0.5', lambda A, x: x ** -0.5, dom='pos', group='pow')
     add('x**1', lambda A, x: x ** 1, group='pow')
+    add('x**2.0', lambda A, x: x ** 2.0, dom='nonzero', group='pow')
+    add('x**3.0', lambda A, x: x ** 3.0, dom='nonzero', group='pow')
+    add('x**-2.0', lambda A, x: x ** -2.0, dom='nonzero', group='pow')
     # ---- elementary / special ------------------------------------------------
     for name, dom in [('exp', 'any'), ('expm1', 'any'), ('log', 'pos'), ('log1p', 'gtm1'), ('sqrt', 'pos'),
                       ('sin', 'any'), ('cos', 'any'), ('square', 'any'), ('reciprocal', 'nonzero'),
@@ -161,6 +174,7 @@ def catalogue():
     add('polygamma1', lambda A, x: A.special.polygamma(1, x), dom='pos', group='special')
     add('hyperu', lambda A, x: A.special.hyperu(1.5, 0.5, x), dom='pos', group='special')
     add('botched_clip', lambda A, x: A.special.botched_clip(-0.5, 0.5, x), group='special', tags=['clip'])
+    add('botched_clip on the bounds', lambda A, x: A.special.botched_clip(-0.5, 0.5, x) * x, group='special', tags=['clip', 'clip-bound'])
     # ---- indexing / views / buffers -------------------------------------------
     add('x[0]*x[1]', lambda A, x: x[0] * x[1], group='index')
     add('x[1:]*x[:-1]', lambda A, x: x[1:] * x[:-1], group='index')
@@ -176,6 +190,7 @@ def catalogue():
     add('buffer, vector broadcast into rows', _buf_bcast_rows, group='buffer', consts={'m': (2, 3)})
     add('buffer, scalar broadcast into a slice', _buf_bcast_scalar, group='buffer')
     add('buffer, vector broadcast into columns', _buf_bcast_cols, group='buffer')
+    add('buffer with constant entries', _buf_consts, group='buffer')
     add('paused recording', _paused, group='buffer')
     add('paused recording twice', _paused_twice, group='buffer')
     add('prod(x)+sum(x*x)', lambda A, x: A.prod(x) + A.sum(x * x), group='reduce')
@@ -203,6 +218,9 @@ def catalogue():
     add('vecsym', lambda A, x: A.vecsym(x), group='shape')
     add('tile', lambda A, x: A.tile(x, 2), group='shape')
     add('tile(2,2)', lambda A, x: A.tile(x, (2, 2)), group='shape')
+    add('tile(2,3)', lambda A, x: A.tile(x, (2, 3)) * A.c['m'], shape=(2,), group='shape', consts={'m': (2, 6)})
+    add('tile(3,1)', lambda A, x: A.tile(x, (3, 1)) * A.c['m'], shape=(2,), group='shape', consts={'m': (3, 2)})
+    add('tile(mat,(2,3))', lambda A, x: A.tile(x, (2, 3)) * A.c['m'], shape=(2, 2), group='shape', consts={'m': (4, 6)})
     # ---- dot / outer of every rank combination ----------------------------------
     add('dot(mat,mat)', lambda A, x: A.dot(x, x), shape=(2, 2), group='dot')
     add('dot(mat,mat.T)', lambda A, x: A.dot(x, x.T), shape=(2, 3), group='dot')
@@ -260,6 +278,9 @@ def catalogue():
         W, L, U = A.lu(x)
         return A.sum(L * A.c['cl']) + A.sum(U * A.c['cu'])
 
+    # cholesky of a matrix that is positive definite by construction (closed-form 2x2 stub)
+    add('cholesky(outer(x,x)+I)', lambda A, x: A.sum(A.cholesky(A.outer(x, x) + np.eye(2)) * A.c['cl']), shape=(2,), group='linalg',
+        consts={'cl': (2, 2)})
     add('qr(2x2)', _qr, shape=(2, 2), group='factor', tags=['fac:qr'], consts={'c0': (2, 2), 'c1': (2, 2)})
     add('qr(3x2)', _qr, shape=(3, 2), group='factor', tags=['fac:qr', 'slow'], consts={'c0': (3, 2), 'c1': (3, 2)})
     add('qr(2x3)', _qr, shape=(2, 3), group='factor', tags=['fac:qr'], consts={'c0': (2, 3), 'c1': (2, 3)})
